@@ -29,7 +29,7 @@ def check(ctx, src):
 
     # --- else folding ---------------------------------------------------------------------------
     fold = pyq.contains(t, lambda n: isinstance(n, ast.AugAssign) and norm(n.target) == "body" and isinstance(n.value, ast.Call) and dotted(n.value.func) in ("list", "tuple") and "orelse" in norm(n.value))
-    ctx.require(fold is not None, "compile_try_expression: the else-into-body fold was not found")
+    ctx.need(fold is not None, "compile_try_expression: the else-into-body fold was not found")
     g = fold._parent
     ok = isinstance(g, ast.If) and "not catchers" in norm(g.test) and "orelse is not None" in norm(g.test)
     ctx.check(ok, "TRY-ELSE", f"{R}|compile_try_expression|fold-guard", f"else forms are appended to the body under `{norm(g.test) if isinstance(g, ast.If) else None}`; "
@@ -41,7 +41,7 @@ def check(ctx, src):
     # --- return variable ---------------------------------------------------------------------------
     rv = pyq.contains(t, lambda n: isinstance(n, ast.Assign) and isinstance(n.targets[0], ast.Name) and isinstance(n.value, ast.Call) and dotted(n.value.func) == "asty.Name"
                       and "get_anon_var" in norm(n.value))
-    ctx.require(rv is not None, "compile_try_expression: result variable not found")
+    ctx.need(rv is not None, "compile_try_expression: result variable not found")
     var = rv.targets[0].id
     sites = {}
     for n in ast.walk(t):
@@ -70,7 +70,7 @@ def check(ctx, src):
 
     # --- except variable scope -------------------------------------------------------------------------
     loop = next((n for n in pyq.walk_no_nested(t) if isinstance(n, ast.For) and norm(n.iter) == "catchers"), None)
-    ctx.require(loop is not None, "compile_try_expression: handler loop not found")
+    ctx.need(loop is not None, "compile_try_expression: handler loop not found")
     w = next((n for n in ast.walk(loop) if isinstance(n, ast.With) and any("scope.create(ScopeLet)" in norm(i.context_expr) for i in n.items)), None)
     outside = [n for n in pyq.walk_no_nested(t) if isinstance(n, (ast.With, ast.Assign)) and "scope.create(ScopeLet)" in norm(n) and not any(n is x for x in ast.walk(loop))]
     ctx.check(w is not None and not outside, "TRY-EXCVAR", f"{R}|compile_try_expression|scope-per-handler",
@@ -85,7 +85,7 @@ def check(ctx, src):
         ctx.check(add is not None and "get_anon_var" in norm(add.args[1]), "TRY-EXCVAR", f"{R}|compile_try_expression|fresh-name", "the except variable is not renamed to a fresh reserved name",
                   R, w.lineno, witness="a same-named outer variable is clobbered and then deleted by Python at the end of the handler", detail=norm(add) if add else "")
     eh = pyq.contains(loop, lambda n: isinstance(n, ast.Call) and dotted(n.func) == "asty.ExceptHandler")
-    ctx.require(eh is not None, "ExceptHandler construction not found")
+    ctx.need(eh is not None, "ExceptHandler construction not found")
     kw = {k.arg: norm(k.value) for k in eh.keywords}
     ctx.check(kw.get("type") == "types.expr" and kw.get("name") == "name" and kw.get("body", "").startswith("ebody.stmts"), "TRY-EXCVAR", f"{R}|compile_try_expression|handler-fields",
               f"ExceptHandler fields are {kw}", R, eh.lineno, detail=str(kw))
